@@ -44,6 +44,12 @@ var accelShapes = []string{
 	`cd|bcde`, `(?:cd|bcde)\d`, `bc|abcd`, `(?i)cd|bcde`, `(?:ab|ba)c`, `bcd|abc|cde`, `(?:da|ab|bcd)x`, `(?i:bc|abcd)e`,
 	// literals longer than the Boyer-Moore prefix limit (50 runes): the scan keeps the head (left-to-right) or the tail (right-to-left)
 	`abcdefghijklmnopqrstuvwxyzabcdefghijklmnopqrstuvwxyzabc`, `abcdefghijklmnopqrstuvwxyzabcdefghijklmnopqrstuvwxyz`, `(?i)abcdefghijklmnopqrstuvwxyzabcdefghijklmnopqrstuvwxyzabcdefgh`, `abcdefghijklmnopqrstuvwxyzabcdefghijklmnopqrstuvwx\d`,
+	// shapes straddling the size thresholds of the analyses: MultiVsRepeaterLimit 64, maxPrefixes 16, maxPrefixLength 8,
+	// maxStringFilterLiteralLen 8, maxLoopExpansion 20, MaxSetsToUse 3, nesting depth 32
+	`a{63}b`, `a{64}b`, `a{65}b`, `(?:ab){33}c`, `[ab]{19}c`, `[ab]{20}c`, `[ab]{21}c`,
+	`(?:aa|ab|ac|ad|ba|bb|bc|bd|ca|cb|cc|cd|da|db|dc|dd)z`, `(?:aa|ab|ac|ad|ba|bb|bc|bd|ca|cb|cc|cd|da|db|dc|dd|xa)z`, `(?i:aa|ab|ac|ad|ba|bb|bc|bd|ca|cb|cc|cd|da|db|dc|dd|xa)z`,
+	`(?:abcdefgh|abcdefgx)y`, `(?:abcdefghij|abcdefghix)k`, `(?i)abcdefghijk`, `(?i:abcdefghi|abcdefghx)z`, `.abcdefgh`, `.abcdefghijk`, `[ab]abcdefghi\d`, `\w\dabcdefghij`,
+	`[ab][cd][xy][ab]z`, `[ab][cd][xy][ab][cd]`, `(?:(?:(?:(?:(?:(?:(?:(?:(?:(?:(?:(?:(?:(?:(?:(?:(?:(?:(?:(?:(?:(?:(?:(?:(?:(?:(?:(?:(?:(?:(?:(?:(?:(?:ab))))))))))))))))))))))))))))))))))c`,
 	`abab`, `abca\d`, `abab\w`, `aba`, `abcab`, `(?i)abab`,
 	`[ab]{25}c`, `[ab]{21}cd`, `\w{22}x`, `[a-c]{30}`, `a{25}b`, `[a-z]+(?:@|\d+)[a-z]+(?:\.|,)[a-z]+`, `\w+(?:-|\s+)\w+(?:=|\d)\w+`, `[a-z]+(?:x|[0-9]{2})[a-z]+(?:;|y+)z`,
 	`\bab`, `\Bab`, `a{3}`, `a{2,}b`, `(?:ab){2}`, `(?:ab*){2}`, `(ab*)+c`, `[a-c]{2}d`, `é+a`, `a😀b`,
